@@ -37,37 +37,38 @@ Qed.
    cache words) in C08's dispatch model: every history of lookups from a cold type succeeds in both and
    returns the same list — the instance the type declares for each class *)
 Theorem cache_on_off_agree_for_the_generated_wiring :
-  forall (cn : Dispatch.cls -> string) (D : list (string * Dispatch.inst)) (h : list (Dispatch.kind * Dispatch.cls)),
+  forall (cn : Dispatch.cls -> string) (sn rr : bool)   (* sn, rr: C08's two entry-shape parameters (NULL not stored; word re-read): any *)
+         (D : list (string * Dispatch.inst)) (h : list (Dispatch.kind * Dispatch.cls)),
   exists Ton Toff,
-    Dispatch.run_history cn cfg_cache_wiring (Dispatch.cold_type cello_cache_num D) h
+    Dispatch.run_history cn cfg_cache_wiring sn rr (Dispatch.cold_type cello_cache_num D) h
       = Some (Ton, map (fun kc => DispatchProofs.dspec cn D (snd kc)) h) /\
-    Dispatch.run_history cn [] (Dispatch.cold_type 0 D) h
+    Dispatch.run_history cn [] sn rr (Dispatch.cold_type 0 D) h
       = Some (Toff, map (fun kc => DispatchProofs.dspec cn D (snd kc)) h).
 Proof.
-  intros cn D h.
-  destruct (DispatchProofs.every_history_from_cold cn cfg_cache_wiring cello_cache_num
+  intros cn sn rr D h.
+  destruct (DispatchProofs.every_history_from_cold cn cfg_cache_wiring sn rr cello_cache_num
               cfg_wiring_nodup cfg_wiring_bound D h) as [Ton [Hon _]].
   assert (Hnd : NoDup (map fst (@nil (nat * Dispatch.cls)))) by constructor.
   assert (Hb : forall i c, In (i, c) (@nil (nat * Dispatch.cls)) -> i < 0) by (intros i c []).
-  destruct (DispatchProofs.every_history_from_cold cn [] 0 Hnd Hb D h) as [Toff [Hoff _]].
+  destruct (DispatchProofs.every_history_from_cold cn [] sn rr 0 Hnd Hb D h) as [Toff [Hoff _]].
   exists Ton, Toff. split; assumption.
 Qed.
 
 (* the same for the wiring as C08 itself reads it off the source (class = index among the builtin objects) *)
 Theorem cache_on_off_agree_for_c08_wiring :
-  forall (D : list (string * Dispatch.inst)) (h : list (Dispatch.kind * Dispatch.cls)),
+  forall (sn rr : bool) (D : list (string * Dispatch.inst)) (h : list (Dispatch.kind * Dispatch.cls)),
   exists Ton Toff,
-    Dispatch.run_history DispatchProofs.cn_b DispatchProofs.wiring_b (Dispatch.cold_type cello_cache_num D) h
+    Dispatch.run_history DispatchProofs.cn_b DispatchProofs.wiring_b sn rr (Dispatch.cold_type cello_cache_num D) h
       = Some (Ton, map (fun kc => DispatchProofs.dspec DispatchProofs.cn_b D (snd kc)) h) /\
-    Dispatch.run_history DispatchProofs.cn_b [] (Dispatch.cold_type 0 D) h
+    Dispatch.run_history DispatchProofs.cn_b [] sn rr (Dispatch.cold_type 0 D) h
       = Some (Toff, map (fun kc => DispatchProofs.dspec DispatchProofs.cn_b D (snd kc)) h).
 Proof.
-  intros D h.
-  destruct (DispatchProofs.every_history_from_cold DispatchProofs.cn_b DispatchProofs.wiring_b cello_cache_num
+  intros sn rr D h.
+  destruct (DispatchProofs.every_history_from_cold DispatchProofs.cn_b DispatchProofs.wiring_b sn rr cello_cache_num
               DispatchProofs.wiring_b_nodup DispatchProofs.wiring_b_bound D h) as [Ton [Hon _]].
   assert (Hnd : NoDup (map fst (@nil (nat * Dispatch.cls)))) by constructor.
   assert (Hb : forall i c, In (i, c) (@nil (nat * Dispatch.cls)) -> i < 0) by (intros i c []).
-  destruct (DispatchProofs.every_history_from_cold DispatchProofs.cn_b [] 0 Hnd Hb D h) as [Toff [Hoff _]].
+  destruct (DispatchProofs.every_history_from_cold DispatchProofs.cn_b [] sn rr 0 Hnd Hb D h) as [Toff [Hoff _]].
   exists Ton, Toff. split; assumption.
 Qed.
 
@@ -101,14 +102,14 @@ Qed.
    cache words are sound in the sense the configuration theorems need — the hypothesis `types_ok` of
    config_independent / history_config_independent is what the dispatch code maintains by itself *)
 Theorem sound_caches_after_every_lookup_history :
-  forall (cn : Dispatch.cls -> string) (dl : list (Dispatch.cls * Dispatch.inst)) (h : list (Dispatch.kind * Dispatch.cls)),
+  forall (cn : Dispatch.cls -> string) (sn rr : bool) (dl : list (Dispatch.cls * Dispatch.inst)) (h : list (Dispatch.kind * Dispatch.cls)),
   (forall c c', In c' (map fst dl) -> cn c' = cn c -> c' = c) ->
-  exists T' r, Dispatch.run_history cn cfg_cache_wiring (Dispatch.type_of_decl cn cello_cache_num dl) h = Some (T', r) /\
+  exists T' r, Dispatch.run_history cn cfg_cache_wiring sn rr (Dispatch.type_of_decl cn cello_cache_num dl) h = Some (T', r) /\
                cache_ok (mkTy (Dispatch.cache T') dl) /\
                r = map (fun kc => scan dl (snd kc)) h.
 Proof.
-  intros cn dl h Hnames. unfold Dispatch.type_of_decl.
-  destruct (DispatchProofs.every_history_from_cold cn cfg_cache_wiring cello_cache_num
+  intros cn sn rr dl h Hnames. unfold Dispatch.type_of_decl.
+  destruct (DispatchProofs.every_history_from_cold cn cfg_cache_wiring sn rr cello_cache_num
               cfg_wiring_nodup cfg_wiring_bound (map (fun d => (cn (fst d), snd d)) dl) h) as [T' [Hr Hinv]].
   exists T', (map (fun kc => DispatchProofs.dspec cn (map (fun d => (cn (fst d), snd d)) dl) (snd kc)) h).
   split; [exact Hr |]. split.
